@@ -1009,7 +1009,9 @@ class Settings(Startup):
             schema = [e for e in tls_startup.config_schema() if (e["table"], e["key"]) not in KNOWN_SETTINGS]
         except Exception:  # noqa: BLE001
             schema = []
-        root = core.mkdtemp("nv-c20settings-")
+        # fixed scratch directories (pool workers are terminated without running exit handlers: a directory per process would stay behind)
+        root = os.path.join(__import__("tempfile").gettempdir(), "nv-c20settings")
+        os.makedirs(root, exist_ok=True)
         cwd = os.getcwd()
         os.chdir(root)      # settings that name files or directories are resolved (and created) here
         plan = []
@@ -1091,8 +1093,8 @@ class Settings(Startup):
         import os
 
         cwd = os.getcwd()
-        scratch = core.mkdtemp("nv-c20cwd-") if "cwd" not in _SETTINGS_PLAN else _SETTINGS_PLAN["cwd"]
-        _SETTINGS_PLAN["cwd"] = scratch
+        scratch = os.path.join(__import__("tempfile").gettempdir(), "nv-c20settings")   # relative paths in settings resolve (and are created) here
+        os.makedirs(scratch, exist_ok=True)
         os.chdir(scratch)
         try:
             return super().impl(case)
